@@ -207,15 +207,31 @@ class Spec:
 
 def attribute_malformed(syms):
     """known finding whose region contains a list with these query symbol strings that was accepted although it is
-    not in the grammar: every malformed query must be explained (a malformed colour function in value position, or
-    a complete query followed by `and` without a complete expression)"""
-    bad = [s for s in syms if not QUERY.match(s)]
-    if not bad:
-        return None
-    # (a malformed colour function ends where its own parser gives up, possibly before its closing parenthesis)
-    if all('B' in s and (QUERY.match(s.replace('B', 'V')) or QUERY.match(s.replace('B', 'V)'))) for s in bad):
+    not in the grammar. Every malformed query must be explained: by a malformed colour function in value position
+    (which ends where its own parser gives up, possibly before its closing parenthesis), or by a complete query
+    followed by `and` without a complete expression; an empty query directly after such a query is the comma that
+    the stop-and-hand-back swallowed."""
+    colour = missing = False
+    prev_explained = False
+    for s in syms:
+        if QUERY.match(s):
+            prev_explained = False
+            continue
+        if 'B' in s and (QUERY.match(s.replace('B', 'V')) or QUERY.match(s.replace('B', 'V)'))):
+            colour = True
+            prev_explained = True
+        elif MISSING_REGION.match(s.replace('B', 'V')):
+            missing = True
+            if 'B' in s:
+                colour = True
+            prev_explained = True
+        elif s == '' and prev_explained:
+            prev_explained = False
+        else:
+            return None
+    if colour:
         return KNOWN_COLOUR
-    if all(MISSING_REGION.match(s.replace('B', 'V')) for s in bad):
+    if missing:
         return KNOWN_MISSING
     return None
 
@@ -475,6 +491,23 @@ def check_owner(impl, spec, h, ml, toks, report, count):
         report('owner: the list of an @media / @import rule equals the stand-alone list', witness(h, 0),
                {'alone': [bool(alone.wellformed), alone.mediaText], 'owned': [bool(ml.wellformed), ml.mediaText]},
                known)
+
+
+# the ten media types of the property statement (CSS 2.1 section 7.3), written here independently of the code
+TEN_MEDIA_TYPES = {'all', 'braille', 'embossed', 'handheld', 'print', 'projection', 'screen', 'speech', 'tty', 'tv'}
+
+
+def check_vocabulary(ctx, impl):
+    """the lists are over the ten known media types: each of them is a medium, nothing else is"""
+    for t in sorted(TEN_MEDIA_TYPES) + ['foo', 'aural', 'tvx', 'only', 'not', 'and']:
+        ml = impl.MediaList()
+        impl.call(False, lambda: setattr(ml, 'mediaText', t))
+        ok = bool(ml.wellformed) and [q.value.mediaType for q in ml] == [t]
+        ctx.case(key=('vocabulary', t), nontrivial=True, kind='vocabulary')
+        if ok != (t in TEN_MEDIA_TYPES):
+            ctx.violate('vocabulary: the media types are the ten known ones', {'context': 'alone', 'start': t,
+                                                                                'ops': [], 'raising': False},
+                        {'accepted': ok})
 
 
 def run_oracle(ctx, impl, hist, rng, extra=True):
